@@ -852,6 +852,33 @@ package restful
 //@ ensures added: forallStr(func(p string) bool { return muxHas(self, p) == (old(muxHas(self, p)) || p == pattern) })
 //@ nopanic
 
+//@ func ext:(*net/http.ServeMux).Handle
+//@ props C11 C12
+//@ trusted model of net/http.ServeMux: registering a pattern twice panics, otherwise the pattern is added
+//@ requires self != nil && pattern != "" && handler != nil
+//@ requires new: !muxHas(self, pattern)
+//@ modifies ghost $g.muxpat
+//@ ensures added: forallStr(func(p string) bool { return muxHas(self, p) == (old(muxHas(self, p)) || p == pattern) })
+//@ nopanic
+
+// plain handlers are registered on the current mux, under the pattern given, exactly once (C11)
+//@ func (*Container).Handle
+//@ props C11 C12
+//@ requires c != nil && c.ServeMux != nil && servicesLock(c) == 0 && pattern != "" && handler != nil
+//@ requires new: !muxHas(c.ServeMux, pattern)
+//@ modifies ghost $g.muxpat
+//@ ensures added: forallStr(func(p string) bool { return muxHas(c.ServeMux, p) == (old(muxHas(c.ServeMux, p)) || p == pattern) })
+//@ ensures lock: servicesLock(c) == 0
+//@ nopanic
+
+//@ func (*Container).HandleWithFilter
+//@ props C06 C11
+//@ requires c != nil && c.ServeMux != nil && servicesLock(c) == 0 && pattern != "" && handler != nil
+//@ requires new: !muxHas(c.ServeMux, pattern)
+//@ modifies ghost $g.muxpat
+//@ ensures added: forallStr(func(p string) bool { return muxHas(c.ServeMux, p) == (old(muxHas(c.ServeMux, p)) || p == pattern) })
+//@ nopanic
+
 //@ func ext:net/http.NewServeMux
 //@ props C11 C12
 //@ trusted model of net/http.ServeMux: a new ServeMux has no patterns
